@@ -449,7 +449,9 @@ def handle (j : Json) : P Json := do
       let n ← jInt (← fld j "n")
       let vol ← jRat (← fld j "volume")
       let hs ← (← jArr (← fld j "hours")).toList.mapM jInt
-      pure (ser (Efp.TimeBuilders.fromDailyVolume start n.toNat vol hs))
+      match Efp.TimeBuilders.fromDailyVolume start n.toNat vol hs with
+      | .ok r => pure (ser r)
+      | .error e => pure (errJson e)
     | "linear" => do
       let n ← jInt (← fld j "n")
       pure (ser (Efp.TimeBuilders.linearGrowth start n.toNat (← jRat (← fld j "a")) (← jRat (← fld j "b"))))
